@@ -35,6 +35,7 @@ OverrideIsDef ==
     /\ BigSub(x, y) = BigSubDef(x, y)
     /\ BigMul(x, y) = BigMulDef(x, y)
     /\ BigCmp(x, y) = BigCmpDef(x, y)
+    /\ (Sgn(y) # 0) => BigDivFloor(BigAbs(x), BigAbs(y)) = BigDivFloorDef(BigAbs(x), BigAbs(y))
     /\ \A k \in {0, 1, 14, 15, 16, 29, 30, 31, 45, 100} : BigShl(x, k) = BigShlDef(x, k)
     /\ \A k \in {0, 1, 14, 15, 16, 29, 30, 31, 45, 100} : BigShr(x, k) = BigShrDef(x, k)
 
@@ -47,6 +48,9 @@ Laws ==
     /\ BigCmpDef(BigAddDef(x, BigOfInt(1)), x) = 1
     /\ BigShlDef(x, 17) = BigMulDef(x, BigOfInt(131072))
     /\ (Sgn(x) = 0) = (Mag(x) = <<>>)
+    /\ (Sgn(y) # 0) => LET q == BigDivFloorDef(BigAbs(x), BigAbs(y))
+                           r == BigSubDef(BigAbs(x), BigMulDef(q, BigAbs(y)))
+                       IN Sgn(r) >= 0 /\ BigCmpDef(r, BigAbs(y)) < 0
     /\ \A k \in {0, 7, 15, 33} : BigShrDef(BigShlDef(x, k), k) = x
     /\ BigCmpDef(BigAbs(BigShlDef(BigShrDef(x, 9), 9)), BigAbs(x)) <= 0
     /\ DyCmp(Dy(x, 3), Dy(BigShlDef(x, 3), 0)) = 0
